@@ -6,6 +6,7 @@ PROP = dict(
     level_text='Seeded exploration of the form matrix: source as stream, InputSource/BinInputStream, file name, parseSource native / Xerces DOM, wrapped Xerces DOM (XercesDOMWrapperParsedSource), XalanDocumentBuilder fed by SAX2, XalanSourceTreeWrapperParsedSource; stylesheet as stream, InputSource, file, compiled, xml-stylesheet PI; target as callback, std::ostream, FILE*, file name, Writer over a XalanOutputStream with per-run buffer sizes, FormatterToXercesDOM, FormatterToSourceTree; layers C++ API, C API (to data, to handler, to file), Xalan executable. Oracles: all forms agree on success/failure; forms differing only in target/layer/perturbation are byte-identical; forms differing in source or stylesheet form have equal canonical trees (attributes as sets, namespace declarations ignored, adjacent text merged); flush handler called after the last write; under one destructive input fault every form fails alike. One run in eight is a self-reference tuple: real files in one directory, the source named by plain path or by URL, the stylesheet reaching the source again through document() and observing node identity.',
     level_note='Documents are generated without CDATA sections and entity references (as the property allows for DOM forms). The canonical tree is computed by re-parsing result bytes with Xerces\' DOM parser (independent of the serializers) or by walking the DOM / source-tree target. The two documented wrapper data-model deviations (DocumentType node visible to node(), namespace axis) are exercised in 1/12 of the runs each.',
     design_ref='DESIGN.md section 7 (C05), 3.2',
+    run_timeout=150,
     runs=dict(quick=3000, thorough=60000),
     nontrivial_counter=['pairs_compared'],
     rule='One evaluation = one tuple through 4-7 forms (first = reference: stream, stream, callback, C++). distinct_nontrivial = number of distinct trace hashes (per-form status and output hash). State tuples = distinct (source form, stylesheet form, target form, layer) combinations executed.',
